@@ -594,12 +594,11 @@ def part_public_trees(ctx, nontrivial):
     specs.append((4, 2, 4 if ctx.quick else 5))
     out = pmap(_public_tree, specs, ctx.jobs)
     for (n, rounds, md), (stats, plans, bad) in zip(specs, out):
-        vals, cnts, _ = multiset(n, rounds)
+        cnts = multiset(n, rounds)[1]
         m = sum(cnts)
-        if md >= m:
-            if stats[0] != G.tree_nodes(cnts) and bad is None:
-                raise HarnessError(f"tree ({n},{rounds}): {stats[0]} nodes "
-                                   f"!= {G.tree_nodes(cnts)}")
+        if md >= m and stats[0] != G.tree_nodes(cnts) and bad is None:
+            raise HarnessError(f"tree ({n},{rounds}): {stats[0]} nodes "
+                               f"!= {G.tree_nodes(cnts)}")
         ctx.add("states", stats[0])
         ctx.add("transitions", stats[1])
         ctx.add("evaluations", 2 * stats[0])
@@ -657,7 +656,7 @@ def _prefixes(cnts, length):
 
 
 def kernel_tree(ctx, n, rounds, split):
-    vals, cnts, _ = multiset(n, rounds)
+    cnts = multiset(n, rounds)[1]
     m = sum(cnts)
     leaves = G.multiset_permutations(cnts)
     nodes = G.tree_nodes(cnts)
@@ -816,6 +815,7 @@ def _bfs_account(ctx, n, rounds, maxdepth, states, tot, per_level, nt):
     ctx.add("traces_validated_against_impl", int(tot[0]))
     ctx.part(f"plan_bfs_n{n}_r{rounds}", depth=maxdepth,
              of_depth=n * (n - 1) // 2 * rounds,
+             complete_state_space=maxdepth == n * (n - 1) // 2 * rounds,
              expanded_states=states, states_per_level=per_level,
              edges=int(tot[2]), real_decodes=int(tot[0]),
              games_fed=int(tot[1]), edges_dropping_the_game=int(tot[5]),
@@ -880,7 +880,7 @@ def _family_job(a):
     nodrop_full = 0
     drops = 0
     for name, x in family(n, rounds):
-        kind, y, ym = check_case(n, rounds, x)
+        kind, _, ym = check_case(n, rounds, x)
         cnt += 1
         fed += len(x)
         if kind:
@@ -1064,14 +1064,15 @@ def run(ctx: Ctx) -> None:
     # BFS over distinct partial plans (depth = number of games = complete
     # state space where it equals the permutation length)
     if ctx.quick:
-        bfs = [(4, 2, 12), (6, 1, 8), (4, 3, 7), (6, 2, 5),
-               (5, 2, 6), (7, 1, 5), (8, 1, 4), (4, 4, 6), (5, 3, 5),
-               (10, 1, 3), (16, 1, 2)]
+        bfs = [(4, 2, 12), (6, 1, 9), (4, 3, 7), (6, 2, 5), (5, 2, 6),
+               (7, 1, 5), (8, 1, 4), (4, 4, 6), (5, 3, 5), (10, 1, 3),
+               (12, 1, 3), (16, 1, 3), (16, 2, 2)]
+        ctx.cap("(6,1): partial plans to depth 9 of 15 (the complete state "
+                "space of 21 841 756 states in thorough)")
     else:
-        bfs = [(4, 2, 12), (6, 1, 10), (4, 3, 9),
-               (6, 2, 6), (5, 2, 7), (7, 1, 6), (8, 1, 5), (4, 4, 8),
-               (5, 3, 6), (6, 3, 5), (10, 1, 4), (12, 1, 3), (16, 1, 3),
-               (16, 2, 2)]
+        bfs = [(4, 2, 12), (6, 1, 15), (4, 3, 9), (6, 2, 6), (5, 2, 7),
+               (7, 1, 7), (8, 1, 6), (4, 4, 8), (5, 3, 6), (6, 3, 5),
+               (10, 1, 5), (12, 1, 4), (16, 1, 4), (16, 2, 2)]
     for n, rounds, depth in bfs:
         if ctx.too_many():
             break
